@@ -743,6 +743,14 @@ class Bubble(Box):
             "" if (self.dom, self.cod) == (self.inside.dom, self.inside.cod)
             else ", dom={}, cod={}".format(repr(self.dom), repr(self.cod)))
 
+    def __eq__(self, other):
+        if isinstance(other, Bubble) and self.inside != other.inside:
+            return False
+        return super().__eq__(other)
+
+    def __hash__(self):
+        return hash(repr(self))
+
 
 Arrow.sum = Sum
 Arrow.bubble_factory = Bubble
